@@ -15,7 +15,9 @@ PHRASES = {
     "depth": [("from the surface to the base of", "surface"), ("depths", "depth"), ("surface to the base of", "base")],
     "well": [("wellbore", "wellbore"), ("well", "well")],
 }
-PLAIN_BLOCKS = ["NE/4", "W/2", "S/2N/2", "Lots 1 - 3, S/2NE/4", "That part lying north of the river", "N½SW¼"]
+PLAIN_BLOCKS = ["NE/4", "W/2", "S/2N/2", "Lots 1 - 3, S/2NE/4", "That part lying north of the river", "N½SW¼",
+                "Lots 1 - 3, Lot 1", "NE/4, NE/4NE/4", "Lots 5 - 3"]
+POSTS = [None, None, "parse_tracts", "parse_tracts_twice", "reparse", "tract_parse"]
 TAILS = {"less_except": "the old road", "insofar": "it lies north of the river", "including": "all accretions",
          "depth": "the Dakota", "well": "of the Smith #1"}
 
@@ -40,9 +42,9 @@ def trigger_cases(ctx, shapes, prefix="g"):
         else:
             doc["blocks"][b] = "%s %s" % (blk, phrase)
         text = plssdoc.render_doc(doc, ctx.rng)
-        cfg = ctx.rng.choice([None, None, "segment", "sec_colon_cautious", "parse_qq", "clean_qq,parse_qq"])
+        cfg = ctx.rng.choice([None, "segment", "sec_colon_cautious", "parse_qq", "parse_qq", "clean_qq,parse_qq"])
         cases.append({"id": "%s%d" % (prefix, i), "kind": "plss", "origin": "trigger placement", "abs": {},
-                      "args": {"text": text, "config": cfg, "source": "SRC-1",
+                      "args": {"text": text, "config": cfg, "source": "SRC-1", "post": ctx.rng.choice(POSTS),
                                "triggers": [{"kind": kind, "phrase": key}]}})
     return cases
 
@@ -53,6 +55,8 @@ def soup_cases(ctx, n):
         args = {"text": soup.rand_text(ctx.rng), "config": soup.rand_config(ctx.rng), "source": "SRC-1"}
         if ctx.rng.random() < 0.4:
             args["kw"] = {"parse_qq": True}
+        if ctx.rng.random() < 0.4:
+            args["post"] = ctx.rng.choice(POSTS[2:])
         cases.append({"id": "s%d" % i, "kind": "plss", "origin": "soup", "abs": {}, "args": args})
     return cases
 
@@ -70,7 +74,7 @@ def run(ctx):
     ctx.rule = ("(a) token sequences of spec/PlssDesc.tla up to %d tokens x 15 configurations, (b) seeded soup x random "
                 "configurations (typing, pairing, hand-down, flawed <=> error flag, error TRS => error flag), (c) documents "
                 "(shapes from spec/PlssDoc.tla) with one of 12 trigger phrases placed at the start / middle / end of a random "
-                "block x 6 configurations (warning of that kind raised, trigger word in its context); non-trivial = distinct "
+                "block x 6 configurations (warning of that kind raised, trigger word in its context), a share of (b) and (c) observed after a re-parse (parse_tracts / parse / Tract.parse); non-trivial = distinct "
                 "(text, configuration)" % (4 if thorough else 3))
     ctx.assumptions += ["flags are compared as multisets, flag/line pairing by first tuple component (R2)",
                         "trigger placements are inside description blocks of documented layouts (text that `segment` "
